@@ -233,7 +233,11 @@ def handleValidate (args : Lean.Json) : Except String Lean.Json := do
     | .err => pure (Lean.Json.mkObj [("model", outcome "resolve-error"), ("H", hList u)])
     | .panic => pure (Lean.Json.mkObj [("model", outcome "panic"), ("H", hList u)])
     | .fuel => pure (Lean.Json.mkObj [("model", outcome "fuel"), ("H", hList u)])
-  | .err => pure (Lean.Json.mkObj [("model", outcome "unmarshal-error")])
+  | .err =>
+    -- the class of known finding D4 is reported here too: {"Type":5} is refused because "Type" is routed to the keyword's field
+    let doc ← decodeJson (getArg args "schema")
+    pure (Lean.Json.mkObj [("model", outcome "unmarshal-error"),
+      ("H", .arr (if Go.hasFoldedKey doc then #[.str "D4"] else #[]))])
   | .panic => pure (Lean.Json.mkObj [("model", outcome "panic")])
   | .fuel => pure (Lean.Json.mkObj [("model", outcome "fuel")])
 
